@@ -89,3 +89,43 @@ void drv_c13(int tier, unsigned long seed, const char *extra) {
     rec_quiesce();
   }
 }
+
+/* c13_inv: inverse construction.  The operand is computed from the RESULT the call should be next to: u = ceil(J*B^n / v) makes u*v = J*B^n + (less than v), so
+   the product of the retained high limbs falls just short of a limb boundary and only the carry out of the discarded low limbs takes it across (mpf_mul_ui,
+   mpf_mul); N = Q*v (+-1) with Q = B^n - 1 or B^n puts a quotient on the boundary (mpf_div_ui, mpf_div, mpf_ui_div).  Operand one limb longer than the
+   destination precision holds, equal to it, and in place. */
+static void setf_z(int i, mpz_srcptr z, long e) { char *h = hex_of_limbs(PTR(z), ABSIZ(z), SIZ(z) < 0); callf("drv_setf", i, h, (int64_t)e); free(h); }
+void drv_c13_inv(int tier, unsigned long seed, const char *extra) {
+  shard_t sh = shard_parse(extra); long x = 0; int pd, vi, ji, dn;
+  static const uint64_t vs[] = {3, 7, 10, 6, 0x100000001UL, 0x8000000000000001UL, 0xffffffffffffffffUL, 12345678901UL};
+  static const uint64_t js[] = {1, 7, 10, 0xffffffffffffffffUL, 0x8000000000000000UL};
+  for (pd = 0; pd < (sh.pure ? 1 : (tier ? 5 : 4)); pd++) for (vi = 0; vi < 8; vi++) {
+    mpz_t U, T, W; int prec;
+    x++; if (!MINE(sh, x)) continue;
+    rec_reset("c13_inv", x, seed);
+    callf("mpf_init2", 0, (uint64_t)(PRECB[pd] + 192)); callf("mpf_init2", 1, (uint64_t)PRECB[pd]); callf("mpf_init2", 2, (uint64_t)PRECB[pd]); callf("mpf_init2", 3, (uint64_t)(PRECB[pd] + 192));
+    prec = (int)PREC(Fp[1]);
+    priv_begin(); mpz_init(U); mpz_init(T); mpz_init(W); priv_end();
+    for (ji = 0; ji < 5; ji++) for (dn = 0; dn <= 2; dn++) { int n = prec + dn, d;       /* u of prec, prec+1, prec+2 limbs (plus possibly one more from J) */
+      priv_begin(); mpz_set_ui(T, js[ji]); mpz_mul_2exp(T, T, 64 * (unsigned long)n); mpz_set_ui(W, vs[vi]); mpz_cdiv_q(U, T, W); priv_end();
+      if ((int)ABSIZ(U) > (int)PREC(Fp[0]) + 1) continue;
+      setf_z(0, U, (long)rnd_below(5) - 2);
+      callf("mpf_mul_ui", 1, 0, vs[vi]); callf("mpf_mul_ui", 2, 0, vs[vi]);
+      if ((int)ABSIZ(U) <= prec + 1) { setf_z(2, U, 1); callf("mpf_mul_ui", 2, 2, vs[vi]); }                     /* in place, operand filling prec+1 limbs */
+      callf("mpf_set", 3, 0); callf("mpf_set_prec_raw", 3, (uint64_t)PRECB[pd]); callf("mpf_mul_ui", 3, 3, vs[vi]); callf("mpf_set_prec_raw", 3, (uint64_t)(PRECB[pd] + 192));   /* in place, longer than the precision */
+      /* the same boundary through mpf_mul with a multi-limb second factor W = v*B + 1 */
+      priv_begin(); mpz_set_ui(W, vs[vi]); mpz_mul_2exp(W, W, 64); mpz_add_ui(W, W, 1); mpz_cdiv_q(U, T, W); priv_end();
+      if (SIZ(U) > 0 && (int)ABSIZ(U) <= (int)PREC(Fp[0]) + 1) { setf_z(0, U, 0); setf_z(3, W, 1); callf("mpf_mul", 1, 0, 3); callf("mpf_mul", 1, 3, 0); callf("mpf_mul", 2, 0, 0); }
+      /* quotients on the boundary: N = Q*v + d, Q = B^n - 1 | B^n */
+      for (d = -1; d <= 1; d++) { int qk;
+        for (qk = 0; qk < 2; qk++) {
+          priv_begin(); mpz_set_ui(T, 1); mpz_mul_2exp(T, T, 64 * (unsigned long)n); if (qk == 0) mpz_sub_ui(T, T, 1); mpz_mul_ui(T, T, vs[vi]); if (d > 0) mpz_add_ui(T, T, 1); else if (d < 0) mpz_sub_ui(T, T, 1); priv_end();
+          if (SIZ(T) <= 0 || (int)ABSIZ(T) > (int)PREC(Fp[0]) + 1) continue;
+          setf_z(0, T, 2); callf("mpf_div_ui", 1, 0, vs[vi]); callf("mpf_set_ui", 3, vs[vi]); callf("mpf_div", 2, 0, 3);
+          if (ji == 0) { callf("mpf_ui_div", 1, vs[vi], 0); callf("mpf_set", 3, 0); callf("mpf_div_ui", 3, 3, vs[vi]); } } }
+    }
+    priv_begin(); mpz_clear(U); mpz_clear(T); mpz_clear(W); priv_end();
+    for (ji = 0; ji < 4; ji++) callf("mpf_clear", ji);
+    rec_quiesce();
+  }
+}
